@@ -45,7 +45,7 @@ AllModes == {"absent", "blackhole", "slow", "healthy", "closing", "paused"}
 ASSUME InitModes \subseteq AllModes /\ Modes \subseteq AllModes
 ASSUME Mutant \in {"", "BlockingSend", "DialInLoop", "DropNoCount", "RedoSkipDrain", "DropSafeOld",
                    "NoIngest", "UnspoolWhileSlow", "LoseReadAhead", "SpoolDropNoCount", "DownDropNoCount",
-                   "WriteTimeoutDrop", "DeadDropNoCount"}
+                   "WriteTimeoutDrop", "DeadDropNoCount", "BlockingUnspool"}
 
 VARIABLES
   next, sender,                          \* Sender: next line 1..N+1; "idle" | "waiting"
@@ -112,24 +112,30 @@ RelayTop ==       \* destination.go: loop head up to the select
   /\ UNCHANGED <<senderV, slowNow, slowLast, numCU, rhold, ctorV, redolist, spoolV, epV, cntV,
                  nconn, alive, shut, hd, hdl, ksOld, ksNew, wbuf, kern, sock>>
 
-SendCase(k) == IF Len(cin[k]) < Q THEN "ok" ELSE IF Mutant = "BlockingSend" THEN "block" ELSE "drop"
+\* src = "in" (line taken from dest.In) | "unspool" (line taken from the spool's Out channel).
+\* Deviation "BlockingUnspool": the toUnspool branch hands its line over with a plain `conn.In <- buf` ("the line has
+\* already left the disk queue, and we only unspool while the connection was not slow"): when the connection writer has
+\* stopped taking lines meanwhile (endpoint not reading, or connection dead with a full queue) the relay loop sits there
+\* and dest.In is not read any more.
+SendCase(k, src) == IF Len(cin[k]) < Q THEN "ok"
+                    ELSE IF Mutant = "BlockingSend" \/ (Mutant = "BlockingUnspool" /\ src = "unspool") THEN "block" ELSE "drop"
 \* nonBlockingSend(l) to connection k; sets cin, nSlowConn, slowNow, rpc, rhold.
 \* The connection may have died after the aliveness check of RelayTop (CheckEOF / a failed flush between
 \* RelayTop and the select branch): a line that then finds In full never enters In or keepSafe, so the
 \* redo collector never sees it -- it must be counted like any other slow_conn drop.  Deviation
 \* "DeadDropNoCount": the default branch returns without counting when the connection is not alive.
 DeadNoCount(k) == Mutant = "DeadDropNoCount" /\ ~alive[k]
-DoSend(k, l) ==
-  CASE SendCase(k) = "ok"    -> /\ cin' = [cin EXCEPT ![k] = Append(@, l)] /\ rpc' = "top"
+DoSend(k, l, src) ==
+  CASE SendCase(k, src) = "ok"    -> /\ cin' = [cin EXCEPT ![k] = Append(@, l)] /\ rpc' = "top"
                                 /\ UNCHANGED <<nSlowConn, slowNow, rhold>>
-    [] SendCase(k) = "drop"  -> /\ nSlowConn' = IF Mutant = "DropNoCount" \/ DeadNoCount(k) THEN nSlowConn ELSE nSlowConn + 1
+    [] SendCase(k, src) = "drop"  -> /\ nSlowConn' = IF Mutant = "DropNoCount" \/ DeadNoCount(k) THEN nSlowConn ELSE nSlowConn + 1
                                 /\ slowNow' = (IF DeadNoCount(k) THEN slowNow ELSE TRUE)
                                 /\ rpc' = "top" /\ UNCHANGED <<cin, rhold>>
-    [] SendCase(k) = "block" -> /\ rpc' = "bsend" /\ rhold' = l /\ UNCHANGED <<cin, nSlowConn, slowNow>>
+    [] SendCase(k, src) = "block" -> /\ rpc' = "bsend" /\ rhold' = l /\ UNCHANGED <<cin, nSlowConn, slowNow>>
 
 RelayIn ==        \* case buf := <-dest.In
   /\ rpc = "sel" /\ sender = "waiting" /\ sender' = "idle" /\ next' = next + 1
-  /\ IF conn # 0 THEN DoSend(conn, next) /\ UNCHANGED <<inrt, nSlowSpool, nDownNoSpool>>
+  /\ IF conn # 0 THEN DoSend(conn, next, "in") /\ UNCHANGED <<inrt, nSlowSpool, nDownNoSpool>>
      ELSE /\ rpc' = "top" /\ UNCHANGED <<cin, nSlowConn, slowNow, rhold>>
           /\ IF Spool
                THEN IF Len(inrt) < RT THEN inrt' = Append(inrt, next) /\ UNCHANGED <<nSlowSpool, nDownNoSpool>>
@@ -145,11 +151,11 @@ RelayUnspool ==   \* case buf := <-toUnspool
   /\ slow' = 0
   /\ IF Mutant = "LoseReadAhead" /\ ~alive[conn]
        THEN rpc' = "top" /\ UNCHANGED <<cin, nSlowConn, slowNow, rhold>>
-       ELSE DoSend(conn, slow)
+       ELSE DoSend(conn, slow, "unspool")
   /\ UNCHANGED <<senderV, conn, unspoolOK, slowLast, numCU, ctorV, redoV, inrt, sbuf, disk, epV,
                  nSlowSpool, nDownNoSpool, nconn, alive, shut, hd, hdl, ksOld, ksNew, ksdone, wbuf, kern, sock>>
 
-RelayBSendDone == \* only with Mutant = "BlockingSend": `conn.In <- buf` without default
+RelayBSendDone == \* only with Mutant = "BlockingSend" / "BlockingUnspool": `conn.In <- buf` without default
   /\ rpc = "bsend" /\ Len(cin[conn]) < Q
   /\ cin' = [cin EXCEPT ![conn] = Append(@, rhold)] /\ rhold' = 0 /\ rpc' = "top"
   /\ UNCHANGED <<senderV, conn, unspoolOK, slowNow, slowLast, numCU, ctorV, redoV, spoolV, epV, cntV,
